@@ -3,7 +3,7 @@
    extracted OCaml driver and (on a sample) inside Coq by vm_compute. *)
 From Coq Require Import String.
 From TlshV Require Import Model.Machine Model.Tokens Gen.Tables Model.MLength Model.MHexStr Model.MHash
-  Model.MPearson Model.MGenerate Model.MFloat Model.MFinalize Spec.SpecGenerate.
+  Model.MPearson Model.MGenerate Model.MFloat Model.MFinalize Model.MCompare Spec.SpecGenerate Spec.SpecDistance.
 Open Scope string_scope.
 Open Scope list_scope.
 Open Scope N_scope.
@@ -20,7 +20,13 @@ Record mcfg := {
   c_simd_convert : bool;
   c_low_mem : bool;
   c_double : bool;
+  c_len_table : bool;
+  c_q : qcfg;
+  c_body : N;
 }.
+
+Definition ccfg_of (c : mcfg) : ccfg :=
+  {| cc_len_table := c_len_table c; cc_q := c_q c; cc_body := c_body c; cc_dbg := c_dbg c |}.
 
 Definition gcfg_of (c : mcfg) : gcfg :=
   {| gc_low_mem := c_low_mem c; gc_double := c_double c; gc_unsafe := c_unsafe c; gc_dbg := c_dbg c |}.
@@ -33,7 +39,7 @@ Definition hcfg_of (c : mcfg) : hcfg :=
 Definition default_cfg : mcfg :=
   {| c_strict := false; c_unsafe := false; c_dbg := true; c_len := LenClz;
      c_dec := DecFull; c_enc := EncFull; c_simd_parse := true; c_simd_convert := true;
-     c_low_mem := false; c_double := true |}.
+     c_low_mem := false; c_double := true; c_len_table := true; c_q := QTableDouble; c_body := 4 |}.
 
 Definition cfg_of_flags (fl : list N) : mcfg :=
   let has k := existsb (N.eqb k) fl in
@@ -41,7 +47,9 @@ Definition cfg_of_flags (fl : list N) : mcfg :=
      c_len := if has 4 then LenWhole else LenClz;
      c_dec := if has 12 then DecMin else if has 11 then DecQuarter else if has 10 then DecHalf else DecFull;
      c_enc := if has 14 then EncMin else if has 13 then EncHalf else EncFull;
-     c_simd_parse := has 15; c_simd_convert := has 16; c_low_mem := has 17; c_double := has 18 |}.
+     c_simd_parse := has 15; c_simd_convert := has 16; c_low_mem := has 17; c_double := has 18;
+     c_len_table := has 19; c_q := if has 21 then QTableDouble else if has 20 then QTable else QNaive;
+     c_body := if has 34 then 4 else if has 33 then 3 else if has 32 then 2 else if has 31 then 1 else 0 |}.
 
 Definition show_perr (e : parse_error) : tok :=
   match e with
@@ -461,6 +469,97 @@ Definition dispatch_gen (c : mcfg) (op : tok) (args : list tok) : option (list t
     end
   else None.
 
+(* ---- comparison ---- *)
+
+Definition cmp_mode_of (t : tok) : option cmp_mode :=
+  if is_sym t "default" then Some CmpDefault else if is_sym t "nolength" then Some CmpNoLength else None.
+
+Definition backend_of (c : mcfg) (t : tok) : option N :=
+  if is_sym t "dispatch" then Some (c_body c)
+  else if is_sym t "pseudo32" then Some 0 else if is_sym t "pseudo64" then Some 1
+  else if is_sym t "sse2" then Some 2 else if is_sym t "sse41" then Some 3 else if is_sym t "avx2" then Some 4
+  else None.
+
+Definition dispatch_cmp (c : mcfg) (op : tok) (args : list tok) : option (list tok) :=
+  let cc := ccfg_of c in
+  let num (r : outcome unit N) := out_or r (fun d => [TN d]) (fun _ => bad) in
+  if is_sym op "cmp" then
+    match args with
+    | [vt; TB a; TB b; mt] =>
+        match variant_of vt, cmp_mode_of mt with
+        | Some v, Some m =>
+            Some (with_hash c v a (fun ha => with_hash c v b (fun hb => num (compare cc ha hb m))))
+        | _, _ => Some bad
+        end
+    | _ => Some bad
+    end
+  else if is_sym op "spec_cmp" then
+    match args with
+    | [vt; TB a; TB b; mt] =>
+        match variant_of vt, cmp_mode_of mt with
+        | Some v, Some m =>
+            Some (with_hash c v a (fun ha => with_hash c v b (fun hb => [TN (spec_distance ha hb m)])))
+        | _, _ => Some bad
+        end
+    | _ => Some bad
+    end
+  else if is_sym op "maxdist" then
+    match args with
+    | [vt; mt] =>
+        match variant_of vt, cmp_mode_of mt with
+        | Some v, Some m => Some [TN (max_distance v m)]
+        | _, _ => Some bad
+        end
+    | _ => Some bad
+    end
+  else if is_sym op "partmax" then
+    match args with
+    | [vt] =>
+        match variant_of vt with
+        | Some v => Some [TN (body_max (v_bk v)); TN (v_cks v); TN qratios_max_distance; TN length_max_distance]
+        | None => Some bad
+        end
+    | _ => Some bad
+    end
+  else if is_sym op "dbody" then
+    match args with
+    | [TN size; be; TB a; TB b] =>
+        match backend_of c be with
+        | Some k =>
+            (* 12-byte bodies only have the scalar implementations *)
+            if (size =? 12) && (1 <? k) && negb (is_sym be "dispatch") then Some [S "na"]
+            else Some [TN (dist_body {| cc_len_table := true; cc_q := QNaive; cc_body := k; cc_dbg := c_dbg c |} a b)]
+        | None => Some bad
+        end
+    | _ => Some bad
+    end
+  else if is_sym op "dlen" then
+    match args with
+    | [TN a; TN b] => Some (num (dist_length cc a b))
+    | _ => Some bad
+    end
+  else if is_sym op "dq" then
+    match args with
+    | [TN a; TN b] => Some (num (dist_q cc a b))
+    | _ => Some bad
+    end
+  else if is_sym op "dck1" then
+    match args with
+    | [TN a; TN b] => Some [TN (dist_cks [a] [b])]
+    | _ => Some bad
+    end
+  else if is_sym op "dck3" then
+    match args with
+    | [TB a; TB b] => Some [TN (dist_cks a b)]
+    | _ => Some bad
+    end
+  else if is_sym op "ring" then
+    match args with
+    | [TN x; TN y; TN n] => Some (num (ring_mod (c_dbg c) x y n))
+    | _ => Some bad
+    end
+  else None.
+
 Definition dispatch (c : mcfg) (line : list tok) : list tok :=
   match line with
   | [] => bad
@@ -473,8 +572,11 @@ Definition dispatch (c : mcfg) (line : list tok) : list tok :=
       | None =>
       match dispatch_gen c op args with
       | Some r => r
+      | None =>
+      match dispatch_cmp c op args with
+      | Some r => r
       | None => [S "MODEL-UNKNOWN-OP"]
-      end end end
+      end end end end
   end.
 
 Definition dispatch_flags (fl : list N) (line : list tok) : list tok :=
